@@ -12,6 +12,7 @@ from .. import resources_live as RL
 
 THEOREMS = [
     "C22_source_shape",
+    "C22_created_by_finished_is_fresh",
     "C22_mutual_exclusion",
     "C22_cached_created_once",
     "C22_created_once_per_invocation",
@@ -190,8 +191,14 @@ def gen_reqs(rng: random.Random, g: list[dict]) -> list[int]:
 class Chooser:
     """Adaptive schedule: at every quiescent point spawn the next task or open a gate."""
 
-    def __init__(self, rng: random.Random, g: list[dict], ntasks: int, style: str, excl: bool = True):
+    def __init__(self, rng: random.Random, g: list[dict], ntasks: int, style: str, excl: bool = True,
+                 tree: bool = False):
         self.rng, self.g, self.ntasks, self.style = rng, g, ntasks, style
+        # task trees: an invocation that has finished (it resolved its resources, its scope is closed) creates
+        # later invocations, which start in a copy of its context -- resolve-then-spawn, nested to any depth
+        self.tree = tree
+        self.p_child = rng.choice([0.5, 0.8, 1.0])
+        self.one_root = tree and rng.random() < 0.7
         # Unlocked tree only: a bare get that joined another invocation's scope re-checks the shared depth at
         # each nested get and opens scopes of its own once that scope has closed; the unlocked model
         # configuration does not follow this (see WfModel/Resource.lean), so bare gets there ask for leaves.
@@ -201,8 +208,16 @@ class Chooser:
         self.bad = rng.random() < 0.15
         self.reloop = rng.random() < 0.2
 
-    def __call__(self, gates: list[int], ntasks_now: int) -> list | None:
+    def _spawn(self, mode: str, reqs: list[int], finished: list[int]) -> list:
+        if self.tree and finished and self.rng.random() < self.p_child:
+            # mostly the same parent (siblings share what their parent left behind), sometimes a nested spawn
+            parent = finished[0] if self.rng.random() < 0.6 else self.rng.choice(finished)
+            return ["spawn", mode, reqs, parent]
+        return ["spawn", mode, reqs]
+
+    def __call__(self, gates: list[int], ntasks_now: int, finished: list[int] = ()) -> list | None:  # type: ignore[assignment]
         rng = self.rng
+        finished = list(finished)
         can_spawn = self.spawned < self.ntasks
         if not can_spawn and not gates:
             return None
@@ -218,11 +233,13 @@ class Chooser:
             spawn = can_spawn
         else:
             spawn = can_spawn and (not gates or rng.random() < 0.5)
+        if self.one_root and self.spawned == 1 and gates and not finished:
+            spawn = False  # let the root of the tree finish its resolution first
         if spawn:
             self.spawned += 1
             if rng.random() < 0.12 and self.bare_pool:
-                return ["spawn", "b", [rng.choice(self.bare_pool)]]
-            return ["spawn", "p", gen_reqs(rng, self.g)]
+                return self._spawn("b", [rng.choice(self.bare_pool)], finished)
+            return self._spawn("p", gen_reqs(rng, self.g), finished)
         return ["open", rng.choice(gates)]
 
 
@@ -296,6 +313,10 @@ def monitor(g: list[dict], info: dict, all_opened: bool, final_state: str | None
     n = len(g)
     overlapped = info.get("overlapped", False)
     tag = "[concurrent]" if overlapped else "[sequential]"
+    if any(rec.get("parent") is not None for rec in info["tasks"]) or info.get("ancestor_resolved"):
+        # classifying fact of the input: some invocation was created by a task that had resolved resources
+        # before (it started in a copy of that task's context)
+        tag += "[created-by-a-resolver]"
 
     made: dict[int, list[tuple[int, int]]] = {}  # rid -> [(task, serial)]
     serial_rid: dict[int, int] = {}
@@ -476,6 +497,10 @@ def run_cases(cases: list[dict], cfg: dict, out: Outcome, label: str) -> None:
         out.count(f"{label}:graph:{case.get('shape', '?')}")
         if info["overlapped"]:
             out.count(f"{label}:overlapping")
+        if any(rec.get("parent") is not None for rec in info["tasks"]):
+            out.count(f"{label}:task-tree(created-by-a-finished-invocation)")
+            if info["overlapped"]:
+                out.count(f"{label}:task-tree:overlapping")
         count_values(out, label, g)
         for rec in info["tasks"]:
             o = rec["outcome"]
@@ -501,13 +526,15 @@ def run_case(case: dict, cfg: dict, out: Outcome, label: str) -> None:
     run_cases([case], cfg, out, label)
 
 
-def gen_case(rng: random.Random, style: str | None = None, max_tasks: int = 4, excl: bool = True) -> dict:
+def gen_case(rng: random.Random, style: str | None = None, max_tasks: int = 4, excl: bool = True,
+             tree: bool | None = None) -> dict:
     g, kind = gen_graph(rng)
     style = style or rng.choices(["mixed", "burst", "serial"], [6, 3, 2])[0]
-    ntasks = rng.randint(1, max_tasks)
-    ch = Chooser(rng, g, ntasks, style, excl)
+    tree = rng.random() < 0.3 if tree is None else tree
+    ntasks = rng.randint(3 if tree else 1, max(3, max_tasks))
+    ch = Chooser(rng, g, ntasks, style, excl, tree)
     ops = RL.explore_direct(g, ch)
-    return {"g": g, "ops": ops, "shape": kind, "style": style}
+    return {"g": g, "ops": ops, "shape": kind, "style": style + ("+tree" if tree else "")}
 
 
 # --------------------------------------------------------------------------
@@ -537,6 +564,10 @@ def run_wf_cases(cases: list[dict], cfg: dict, out: Outcome) -> None:
         out.count("workflow:invocations", len(info["tasks"]))
         if info["overlapped"]:
             out.count("workflow:overlapping")
+        if case.get("outer"):
+            out.count("workflow:run-from-a-step-of-an-enclosing-workflow")
+        if case.get("pre"):
+            out.count("workflow:caller-resolved-a-resource-first")
         count_values(out, "workflow", g)
         out.count("workflow:result:" + info["result"].split(":")[0])
         out.nontrivial(("wf", g, case["workers"], ops))
@@ -606,7 +637,14 @@ def gen_wf_case(rng: random.Random) -> dict:
         workers.append({"reqs": reqs, "num_workers": rng.choice([1, 2, 3, 4]), "count": rng.randint(1, 4)})
     order = [i for i, w in enumerate(workers) for _ in range(w["count"])]
     rng.shuffle(order)
-    return {"g": g, "workers": workers, "order": order, "seed": rng.randrange(1 << 30), "shape": kind}
+    case = {"g": g, "workers": workers, "order": order, "seed": rng.randrange(1 << 30), "shape": kind}
+    # history in an ancestor context of the step tasks: the workflow runs inside a step (with an injected
+    # resource) of 1-2 enclosing workflows, and/or its caller resolved something through the manager first
+    if rng.random() < 0.4:
+        case["outer"] = rng.choice([1, 1, 2])
+    if rng.random() < 0.25:
+        case["pre"] = [rng.randrange(len(g)) for _ in range(rng.choice([1, 1, 2]))]
+    return case
 
 
 # --------------------------------------------------------------------------
